@@ -1433,6 +1433,7 @@ dialer_start_pipe(nni_dialer *d, nni_pipe *p)
 	nni_mtx_unlock(&s->s_mx);
 
 #ifdef NNG_ENABLE_STATS
+	p->p_counted = true; // nni_pipe_remove un-counts only these
 	nni_stat_inc(&s->st_pipes, 1);
 	nni_stat_inc(&d->st_pipes, 1);
 #endif
@@ -1558,6 +1559,7 @@ listener_start_pipe(nni_listener *l, nni_pipe *p)
 	nni_sock *s = l->l_sock;
 
 #ifdef NNG_ENABLE_STATS
+	p->p_counted = true; // nni_pipe_remove un-counts only these
 	nni_stat_inc(&l->st_pipes, 1);
 	nni_stat_inc(&s->st_pipes, 1);
 #endif
@@ -1766,12 +1768,16 @@ nni_pipe_remove(nni_pipe *p)
 
 	nni_mtx_lock(&s->s_mx);
 #ifdef NNG_ENABLE_STATS
-	nni_stat_dec(&s->st_pipes, 1);
-	if (p->p_listener != NULL) {
-		nni_stat_dec(&p->p_listener->st_pipes, 1);
-	}
-	if (p->p_dialer != NULL) {
-		nni_stat_dec(&p->p_dialer->st_pipes, 1);
+	// Only pipes that were started have been counted; the ones that never
+	// got past the transport's negotiation have not.
+	if (p->p_counted) {
+		nni_stat_dec(&s->st_pipes, 1);
+		if (p->p_listener != NULL) {
+			nni_stat_dec(&p->p_listener->st_pipes, 1);
+		}
+		if (p->p_dialer != NULL) {
+			nni_stat_dec(&p->p_dialer->st_pipes, 1);
+		}
 	}
 #endif
 	nni_list_node_remove(&p->p_sock_node);
